@@ -68,3 +68,21 @@ Proof.
   list_eq; field; assumption.
 Qed.
 End Interface.
+
+(* the moment the allocator works with is the demanded moment clamped, component by component, to [-M_max, M_max] with
+   M_max = l (4 F_max) / 2 (both signs: a demand below -M_max becomes -M_max, not +M_max) *)
+Definition clampR (b m : R) : R := Rmax (- b) (Rmin m b).
+Lemma alloc_msat_is_clamp F_max l Cm Ct T M0 M1 M2 : 0 <= F_max -> 0 <= l ->
+  rdd2_control_allocation_wp F_max l Cm Ct T M0 M1 M2 (fun r =>
+    let b := l * (4 * F_max) / 2 in
+    [nth 16 r 0; nth 17 r 0; nth 18 r 0] = [clampR b M0; clampR b M1; clampR b M2]).
+Proof.
+  intros HF Hl. wp_intro rdd2_control_allocation_wp.
+  match goal with b := _ |- _ => subst b end.
+  cbv beta iota zeta delta [nth]. all_eqns.
+  assert (Hb : 0 <= l * (4 * F_max) / 2) by nra.
+  list_eq.
+  all: match goal with |- ?m = _ => slice m 8%nat end; drop_rest; cases; subst; unfold clampR, Rmin;
+       match goal with |- context [Rle_dec ?a ?b] => destruct (Rle_dec a b) end; unfold Rmax;
+       match goal with |- context [Rle_dec ?a ?b] => destruct (Rle_dec a b) end; lra.
+Qed.
